@@ -126,6 +126,23 @@ def r1(prog, ev, rep, sites):
                 why = "tuples come from different containers"
         elif e.k == "field" and i.k == "field" and e.a[0] == i.a[0] and (e.a[1], i.a[1]) == ("1", "0"):
             why = "the (element, index) tuple's components are passed in swapped order"
+        elif e.k == "field" and i.k == "field" and e.a[0] == i.a[0] and e.a[1] != i.a[1] and not e.a[1].isdigit():
+            # a small record instead of a tuple: the two named fields of every construction must pair an element with its index
+            X = e.a[0]
+            recs = list(X.a) if X.k == "phi" else [X]
+            Ps = []
+            for r_ in recs:
+                fd = dict(r_.a[2]) if r_.k == "adt" else {}
+                if e.a[1] not in fd or i.a[1] not in fd:
+                    why = "`%s` is not a record with fields %s / %s" % (str(r_)[:80], e.a[1], i.a[1]); break
+                Pq, idiom = elem_index_pair(fd[e.a[1]], fd[i.a[1]])
+                if Pq is None:
+                    why = idiom; break
+                Ps.append(Pq)
+            if why is None and Ps and all(x == Ps[0] for x in Ps):
+                P = Ps[0]
+            elif why is None:
+                why = "records come from different containers"
         else:
             P, why = elem_index_pair(e, i)
             if P is not None:
